@@ -14,9 +14,9 @@ including its degenerate cases and defects:
   constant column (`_handle_zeros_in_scale`: data range 0 is replaced by 1, so the whole column is mapped to `lo`);
 * exceptions are error kinds; an operation that raises after it has already modified the object returns the modified
   object together with the error;
-* the object sharing of the implementation (the `_scaling_factor` array shared between a data set and the sets
-  derived from it and modified in place by `*=`; the label array of `split_pieces` parts being a view of the
-  parent's label array, modified in place by `move_boundaries_to_front`) is mirrored by the `Pool` layer at the end.
+* object identity (`concatenate` may return one of its operands; `_scaling_factor` objects are shared by reference
+  between a data set and the sets derived from it but never modified in place; label arrays are private to each
+  object) is mirrored by the `Pool` layer at the end.
 
 Floating-point rounding is not modelled (exact rationals).
 -/
@@ -270,17 +270,6 @@ def splitPieces (s : DS) (p : Rat) : Except Err (DS × DS) :=
   | .error e, _ => .error e
   | _, .error e => .error e
 
-/-- comparison of the two array-valued range entries in `same_scaling`: `(x[0] == y[0]) and (x[1] == y[1])` -/
-def cmp2 (x y : List Rat) : Except Err Bool :=
-  match x[0]?, y[0]? with
-  | some a, some b =>
-    if a == b then
-      match x[1]?, y[1]? with
-      | some c, some d => .ok (c == d)
-      | _, _ => .error .index
-    else .ok false
-  | _, _ => .error .index
-
 /-- `all([x == y for x, y in zip(v, w)])` -/
 def zipAllEq (v w : List Rat) : Bool := (List.zipWith (fun x y => x == y) v w).all id
 
@@ -292,11 +281,7 @@ def sameScaling (a b : DS) : Except Err Bool :=
     let rng : Except Err (Option Bool) :=
       match a.range, b.range with
       | some (.pair l1 h1), some (.pair l2 h2) => .ok (some (l1 == l2 && h1 == h2))
-      | some (.arrs m1 x1), some (.arrs m2 x2) =>
-        match cmp2 m1 m2, cmp2 x1 x2 with
-        | .ok u, .ok v => .ok (some (u && v))
-        | .error e, _ => .error e
-        | _, .error e => .error e
+      | some (.arrs m1 x1), some (.arrs m2 x2) => .ok (some (m1 == m2 && x1 == x2))  -- `np.array_equal` per entry
       | some (.pair _ _), some (.arrs _ _) => .ok none
       | some (.arrs _ _), some (.pair _ _) => .ok none
       | _, _ => .error .type
@@ -356,9 +341,15 @@ def removedSingles (s : DS) (idx : List Int) : Except Err (List DS) :=
 def deleteIdx (l : List Sample) (idx : List Int) : List Sample :=
   (List.range l.length).filterMap fun (j : Nat) => if idx.contains (Int.ofNat j) then none else l[j]?
 
+/-- `list(dict.fromkeys(indices))`: duplicates dropped, first occurrences kept in order -/
+def dedupFirst (idx : List Int) : List Int :=
+  idx.foldl (fun acc x => if acc.contains x then acc else acc ++ [x]) []
+
 /-- `remove_samples(indices)` → (self afterwards, returned data set or the exception) -/
 def removeSamples (s : DS) (idx : List Int) : DS × Except Err DS :=
   if idx.any (fun i => i < 0 || i > (s.samples.length : Int)) then (s, .error .value) else
+  let idx := dedupFirst idx
+  if idx.isEmpty then (s, updateInternal s (ctor [])) else
   match removedSingles s idx with
   | .error e => (s, .error e)
   | .ok parts => ({ s with samples := deleteIdx s.samples idx }, listConcatenate parts)
@@ -408,11 +399,6 @@ def isVec : Option Fac → Bool
   | some (.vec _) => true
   | _ => false
 
-/-- write the new value of the factor array of object `i` into every other object holding the same array -/
-def Pool.propagateFactor (P : Pool) (i : Nat) (cell : Nat) (f : Option Fac) : Pool :=
-  { P with objs := P.objs.zipIdx.map fun p =>
-      if p.2 != i && p.1.fcell == cell && isVec p.1.ds.factor then { p.1 with ds := { p.1.ds with factor := f } } else p.1 }
-
 /-- write the labels `labs` (at offset `off` of label array `cell`) through to the other objects viewing that array -/
 def Pool.propagateLabels (P : Pool) (i : Nat) (cell off : Nat) (labs : List Int) : Pool :=
   { P with objs := P.objs.zipIdx.map fun p =>
@@ -453,8 +439,9 @@ def Pool.inplace (P : Pool) (i : Nat) (op : IOp) : Pool × Option Err :=
         let P1 := P.setObj i { ds := s', fcell := P.next, lcell := P.next + 1, loff := 0 }
         ({ P1 with next := P.next + 2 }, e)
       else
-        let P1 := P.setObj i { ds := s', fcell := o.fcell, lcell := P.next, loff := 0 }
-        (({ P1 with next := P.next + 1 }).propagateFactor i o.fcell s'.factor, e)
+        -- `self._scaling_factor = self._scaling_factor * scale_`: a new object, nobody else sees it
+        let P1 := P.setObj i { ds := s', fcell := P.next, lcell := P.next + 1, loff := 0 }
+        ({ P1 with next := P.next + 2 }, e)
     | .scaleFactor f ov =>
       let (s', e) := scaleFactor s f ov
       if e.isSome then (P.setObj i { o with ds := s' }, e) else
@@ -463,7 +450,8 @@ def Pool.inplace (P : Pool) (i : Nat) (op : IOp) : Pool × Option Err :=
         let P1 := P.setObj i { o with ds := s', fcell := P.next }
         ({ P1 with next := P.next + 1 }, e)
       else
-        ((P.setObj i { o with ds := s' }).propagateFactor i o.fcell s'.factor, e)
+        let P1 := P.setObj i { o with ds := s', fcell := P.next }
+        ({ P1 with next := P.next + 1 }, e)
     | .shiftValue v ov =>
       let (s', e) := shiftValue s v ov
       if e.isSome then (P.setObj i { o with ds := s' }, e) else
@@ -473,12 +461,9 @@ def Pool.inplace (P : Pool) (i : Nat) (op : IOp) : Pool × Option Err :=
         ({ P1 with next := P.next + 1 }, e)
       else (P.setObj i { o with ds := s' }, e)
     | .revert =>
-      let (s1, e1) := revertStep1 s
       let (s', e) := revert s
-      -- the factor array was multiplied in place iff the first step succeeded on an ndarray factor
-      let P1 := P.setObj i { o with ds := s', fcell := if e.isNone then P.next else o.fcell }
-      let P2 := { P1 with next := P.next + 1 }
-      if e1.isNone && isVec s.factor then (P2.propagateFactor i o.fcell s1.factor, e) else (P2, e)
+      let P1 := P.setObj i { o with ds := s', fcell := P.next }
+      ({ P1 with next := P.next + 1 }, e)
     | .shuffle perm =>
       let P1 := P.setObj i { o with ds := shuffle s perm, lcell := P.next, loff := 0 }
       ({ P1 with next := P.next + 1 }, none)
@@ -512,7 +497,7 @@ def Pool.splitWithoutLabels (P : Pool) (i : Nat) : Pool × Except Err Nat :=
     | .error e => (P, .error e)
     | .ok (a, b) => (P.addDerived o.fcell [a, b], .ok 2)
 
-/-- `split_pieces`: the label arrays of the parts are views `labels[:k]`, `labels[k:]` of the parent's -/
+/-- `split_pieces`: the parts hold copies of the label slices -/
 def Pool.splitPieces (P : Pool) (i : Nat) (p : Rat) : Pool × Except Err Nat :=
   match P.get? i with
   | none => (P, .error .index)
@@ -520,8 +505,7 @@ def Pool.splitPieces (P : Pool) (i : Nat) (p : Rat) : Pool × Except Err Nat :=
     match DSM.splitPieces o.ds p with
     | .error e => (P, .error e)
     | .ok (a, b) =>
-      let k := splitIndex o.ds p
-      (((P.add a (some o.fcell) (some (o.lcell, o.loff))).add b (some o.fcell) (some (o.lcell, o.loff + k))), .ok 2)
+      (((P.add a (some o.fcell) none).add b (some o.fcell) none), .ok 2)
 
 /-- `remove_samples` on object `i`: once the checks have passed `self` gets new arrays (`np.delete`), the returned
     set is a new object holding the factor object of `self` -/
@@ -535,7 +519,7 @@ def Pool.removeSamples (P : Pool) (i : Nat) (idx : List Int) : Pool × Except Er
       else ({ (P.setObj i { o with ds := s', lcell := P.next, loff := 0 }) with next := P.next + 1 }, .error e)
     | (s', .ok d) =>
       let P1 : Pool := { (P.setObj i { o with ds := s', lcell := P.next, loff := 0 }) with next := P.next + 1 }
-      (P1.add d (if idx.isEmpty then none else some o.fcell) none, .ok 1)
+      (P1.add d (some o.fcell) none, .ok 1)
 
 /-- where the result of a concatenation lives: an existing object or a new one -/
 inductive Where where
